@@ -558,6 +558,25 @@ def ptr_advance_bytes(fb, ef):
     return None
 
 
+def c_string_literals(v):
+    """C-string literals (text including the trailing NUL) found in a term: `"open\\0"` string constants, `b"open\\0"`
+    byte-string constants (a reference to constant bytes) and literal byte arrays"""
+    out = []
+    for y in psi.walk(v):
+        if y[0] == 'c' and isinstance(y[1], tuple) and y[1][0] == 's' and y[1][1].endswith('\0'):
+            out.append(y[1][1])
+        elif y[0] == 'ref' and y[1][0][0] == 'K' and isinstance(y[1][0][1], str):
+            try:
+                raw = bytes.fromhex(y[1][0][1])
+            except ValueError:
+                continue
+            if raw.endswith(b'\0') and 1 < len(raw) < 64:
+                out.append(raw.decode('latin-1'))
+        elif y[0] == 'agg' and y[2] is None and y[3] and all(psi.is_int_const(e) and 0 <= e[1] < 256 for e in y[3]) and y[3][-1][1] == 0 and 1 < len(y[3]) < 64:
+            out.append(bytes(e[1] for e in y[3]).decode('latin-1'))
+    return out
+
+
 _CALLERS = [None, None]
 
 
